@@ -25,12 +25,13 @@ RULE = ('Schedule sampling (the harness cannot own the OS / OpenMP / Dask thread
         'parallel kernel, or >= 2 client threads. distinct = distinct configurations.')
 ASSUMPTIONS = ['interleavings are sampled, not enumerated: a race needing a microsecond-wide window may be missed',
                'the serial single-thread result is the reference']
+ENV16 = {'NUMBA_NUM_THREADS': '16', 'OMP_NUM_THREADS': '16'}
 BUDGET = {'quick': {'shards': 0, 'examples': 0, 'min_evaluations': 20, 'nproc': 3,
-                    'sub_shards': [{'examples': 24, 'env': {'NUMBA_NUM_THREADS': '16', 'OMP_NUM_THREADS': '16'}},
-                                   {'examples': 24, 'env': {'NUMBA_NUM_THREADS': '16', 'OMP_NUM_THREADS': '16'}},
-                                   {'examples': 24, 'env': {'NUMBA_NUM_THREADS': '16', 'OMP_NUM_THREADS': '16'}}]},
+                    'sub_shards': [{'examples': 24, 'env': ENV16},
+                                   {'examples': 24, 'env': ENV16},
+                                   {'examples': 24, 'env': ENV16}]},
           'thorough': {'shards': 0, 'examples': 0, 'min_evaluations': 200, 'nproc': 4,
-                       'sub_shards': [{'examples': 250, 'env': {'NUMBA_NUM_THREADS': '16', 'OMP_NUM_THREADS': '16'}} for _ in range(8)]}}
+                       'sub_shards': [{'examples': 250, 'env': ENV16} for _ in range(8)]}}
 RA = dict(stop_max_attempt_number=3)
 
 
@@ -42,6 +43,18 @@ def _data(case):
     pts = rs.randint(0, 200, size=(n, 2)).astype(float)
     xy = rs.randint(0, 180, size=(n, 2))
     wh = rs.randint(1, 20, size=(n, 2))
+    order = case.get('order', 'random')
+    if order != 'random':
+        # extremes at the ends of the buffers (where a chunked reduction has its ragged first / last chunk)
+        col, sign = {'sorted-x': (0, 1), 'sorted-y-desc': (1, -1)}[order]
+        pts = pts[np.argsort(sign * pts[:, col], kind='stable')]
+        o = np.argsort(sign * (xy[:, col] + (wh[:, col] if sign > 0 else 0)), kind='stable')
+        xy, wh = xy[o], wh[o]
+        # ... and held by the first / last element alone
+        pts[-1, col] += 5 * sign
+        pts[0, col] -= 5 * sign
+        xy[-1, col] += 30 * sign
+        xy[0, col] -= 30 * sign
     rings = [[[int(x), int(y), int(x + w), int(y), int(x + w), int(y + h), int(x), int(y + h), int(x), int(y)]] for (x, y), (w, h) in zip(xy, wh)]
     parr = model.build_array('point', pts.tolist(), 'float64')
     poly = model.build_array('polygon', rings, 'float64')
@@ -55,6 +68,12 @@ def _multi(case):
     n = case['n']
     xy = rs.randint(0, 180, size=(n, 2))
     wh = rs.randint(1, 20, size=(n, 2))
+    if case.get('order', 'random') != 'random':
+        col, sign = {'sorted-x': (0, 1), 'sorted-y-desc': (1, -1)}[case['order']]
+        o = np.argsort(sign * (xy[:, col] + (wh[:, col] if sign > 0 else 0)), kind='stable')
+        xy, wh = xy[o], wh[o]
+        xy[-1, col] += 70 * sign
+        xy[0, col] -= 70 * sign
 
     def ring(x, y, w, h):
         return [int(x), int(y), int(x + w), int(y), int(x + w), int(y + h), int(x), int(y + h), int(x), int(y)]
@@ -113,8 +132,12 @@ def _ops(case, tmp):
                     np.array(o['poly'].total_bounds), o['poly'].hilbert_distance(p=9),
                     o['mpoly'].intersects_bounds(box), o['mline'].intersects_bounds(box), o['mpt'].intersects_bounds(box),
                     o['mpoly'].area, o['mpoly'].length, o['mline'].length, o['mpoly'].bounds,
-                    o['parr'].intersects(o['mshape']), o['parr'].intersects(o['lshape']),
-                    o['mpoly'].intersects_bounds(box, np.arange(0, len(o['mpoly']), 3)))
+                    o['parr'].intersects(o['mshape']),
+                    # (this kernel opens an OpenMP region per point and line: a twelfth of the points keeps a case in seconds)
+                    o['parr'].intersects(o['lshape'], np.arange(0, len(o['parr']), 12)),
+                    o['mpoly'].intersects_bounds(box, np.arange(0, len(o['mpoly']), 3)),
+                    np.array(o['parr'].total_bounds), np.array(o['line'].total_bounds), np.array(o['mpt'].total_bounds),
+                    np.array(o['mpoly'].total_bounds), o['parr'].bounds)
     elif op == 'cx':
         def prepare():
             left, right, line = frames()
@@ -150,16 +173,21 @@ def _ops(case, tmp):
             # clients share the pandas frame (the spatialpandas arrays and their lazily built indexes); every caller builds
             # its own Dask collection: computing ONE dask-expr collection from several threads at once fails inside Dask
             # itself (KeyError on a lowered graph key), which is not the library's business
-            ddf = dd.from_pandas(o['pdf'], npartitions=npart, sort=False)
+            # dask-expr interns expressions by a content token, so collections built from equal frames are still ONE
+            # expression object underneath; a throw-away column that differs per caller keeps them apart (it is dropped
+            # from the results; the geometry arrays stay shared)
+            ddf = dd.from_pandas(o['pdf'].assign(client_=tag), npartitions=npart, sort=False)
             if op == 'dask_cx':
-                return ddf.cx[box[0]:box[2], box[1]:box[3]].compute()
+                return ddf.cx[box[0]:box[2], box[1]:box[3]].compute().drop(columns='client_')
             if op == 'dask_sjoin':
-                return sp.sjoin(ddf, o['right'], how=case.get('how', 'inner')).compute().sort_values(['id', 'index_right'], kind='stable')
+                return sp.sjoin(ddf, o['right'], how=case.get('how', 'inner')).compute().drop(columns='client_').sort_values(['id', 'index_right'], kind='stable')
             if op == 'dask_measures':
                 return (ddf['poly'].bounds.compute(), ddf['poly'].area.compute(), ddf['poly'].length.compute(),
                         np.array(ddf['poly'].total_bounds), ddf.geometry.intersects_bounds(box).compute())
-            r = ddf.pack_partitions(npartitions=case.get('out_partitions', 3), p=10).compute()
-            return (list(r.index), r.reset_index().sort_values(['hilbert_distance', 'id'], kind='stable'))
+            # rows with equal Hilbert distance leave Dask's shuffle in no particular order (C09 leaves ties open): rows are
+            # compared after a stable sort on (distance, id), positions dropped
+            r = ddf.pack_partitions(npartitions=case.get('out_partitions', 3), p=10).compute().drop(columns='client_')
+            return (list(r.index), r.reset_index().sort_values(['hilbert_distance', 'id'], kind='stable').reset_index(drop=True))
     elif op in ('to_parquet', 'read_parquet'):
         def prepare():
             left, right, line = frames()
@@ -177,21 +205,37 @@ def _ops(case, tmp):
                                  every_delay=tuple(case['every_delay']) if case.get('every_delay') and tag != 'ref' else None)
             if op == 'read_parquet':
                 r = read_parquet_dask(o['path'], filesystem=fs).compute()
-                return r.reset_index().sort_values(['hilbert_distance', 'id'], kind='stable')
+                return r.reset_index().sort_values(['hilbert_distance', 'id'], kind='stable').reset_index(drop=True)
             path = os.path.join(tmp, f'out-{tag}')
             fmt = os.path.join(tmp, 'shared-tmp', '{uuid}', 'p{partition}') if case.get('external') else None
-            dd.from_pandas(o['pdf'], npartitions=npart, sort=False).pack_partitions_to_parquet(path, filesystem=fs, npartitions=case.get('out_partitions', 5), p=10,
+            dd.from_pandas(o['pdf'].assign(client_=tag), npartitions=npart, sort=False).pack_partitions_to_parquet(path, filesystem=fs, npartitions=case.get('out_partitions', 5), p=10,
                                                 tempdir_format=fmt, _retry_args=RA)
             listing = sorted((nm, os.path.isdir(os.path.join(path, nm))) for nm in os.listdir(path))
-            back = read_parquet_dask(path).compute()
+            back = read_parquet_dask(path).compute().drop(columns='client_')
             leftovers = []
             if fmt:
                 for r_, _d, fs_ in os.walk(os.path.join(tmp, 'shared-tmp')):
                     leftovers.extend(fs_)
-            return (listing, list(back.index), back.reset_index().sort_values(['hilbert_distance', 'id'], kind='stable'), sorted(leftovers) if not case.get('clients', 1) > 1 else [])
+            return (listing, list(back.index), back.reset_index().sort_values(['hilbert_distance', 'id'], kind='stable').reset_index(drop=True), sorted(leftovers) if not case.get('clients', 1) > 1 else [])
     else:
         raise ValueError(op)
     return prepare, run
+
+
+def _drop_dask_pools():
+    """Dask keeps one thread pool per (calling thread, num_workers); the pools of finished client threads stay around and
+    dozens of idle workers make every later case in the same interpreter several times slower (measured: 12 s -> 100 s)"""
+    try:
+        from dask import threaded
+        for d in list(threaded.pools.values()):
+            for p in list(d.values()):
+                p.shutdown(wait=True)
+        threaded.pools.clear()
+        if threaded.default_pool is not None:
+            threaded.default_pool.shutdown(wait=True)
+            threaded.default_pool = None
+    except Exception:  # noqa: BLE001  (housekeeping only)
+        pass
 
 
 def evaluate(case):
@@ -260,6 +304,7 @@ def evaluate(case):
         sys.setswitchinterval(old_switch)
         numba.set_num_threads(1)
         shutil.rmtree(tmp, ignore_errors=True)
+        _drop_dask_pools()
 
 
 def _describe(ref, got, case):
@@ -276,7 +321,8 @@ def _case(draw):
                                'pack_partitions', 'to_parquet', 'to_parquet', 'read_parquet']))
     big = op in ('kernels',)
     case = {'op': op, 'data_seed': draw(st.integers(0, 10 ** 6)),
-            'n': draw(st.sampled_from([20000, 50000])) if big else draw(st.sampled_from([60, 200, 1000])),
+            'n': (draw(st.sampled_from([20000, 50000])) + draw(st.integers(0, 37))) if big else draw(st.sampled_from([60, 200, 1000])),
+            'order': draw(st.sampled_from(['random', 'sorted-x', 'sorted-y-desc'])),
             'scheduler': draw(st.sampled_from(['threads', 'threads', 'threads', 'synchronous'])),
             'workers': draw(st.sampled_from([1, 2, 3, 4, 8, 16])),
             'numba_threads': draw(st.sampled_from([1, 2, 4, 16])),
